@@ -46,6 +46,11 @@ func readTlvStream(
 				break
 			}
 
+			if len > defn.MaxNDNPacketSize {
+				// Invalid packet (and int(len) may not even be representable)
+				return errors.New("received TLV block larger than the maximum packet size")
+			}
+
 			tlvSize := typ.EncodingLength() + len.EncodingLength() + int(len)
 
 			if recvOff-tlvOff >= tlvSize {
